@@ -820,3 +820,11 @@ M('c18-float-key-through-int', ['C18', 'C07'], ['R18.7', 'R7.6'], [(JU,
   "            return repr(int(key))\n"
   "        elif isinstance(key, float):\n            if key != key:")],
   'integral float keys lose their spelling')
+# ---- round 10 --------------------------------------------------------------
+M('c13-result-copied-from-cached', 'C13', 'R13.7', [(FB,
+  "        self._apply_cached_suboperations(cached_operation)\n"
+  "        operation.file_comparison_result = file_comparison_result\n",
+  "        self._apply_cached_suboperations(cached_operation)\n"
+  "        operation.file_comparison_result = (\n"
+  "            cached_operation.file_comparison_result)\n")],
+  'the reused record keeps the cached result (possibly of another mode)')
